@@ -52,10 +52,10 @@ def run(ctx):
                 "numbers, markup bodies nested up to 200 levels or thousands of elements, in all four media types) built through one of six "
                 "constructors and exercised (String/Preview at 14 widths from -10 to 1004, Name, Timestamp, Parents, Children.Harvest, "
                 "SelectLink at 8 integers incl. min/max int, Media/ProfilePic/Banner/Actor/Target); judged by T_Outcome (returned normally "
-                "within 5 s); distinct = distinct case index")
+                "every single call within 5 s for documents of a few kilobytes); distinct = distinct case index")
     for e in events[:2] + slow[:1]:
         res.sample({k: e[k] for k in ("i", "desc", "outcome", "ms", "size")})
-    res.assumptions = ["time bound 5 s per case on this machine (a case exercises about 40 renderings); slower machines may need reproduction",
+    res.assumptions = ["time bound 5 s per single call for documents up to 8 kB (the slowest call of the current tree takes under 1 s here, also under load); a slow call only counts when it is slow again twice on its own",
                        "references inside generated values point at unresolvable hosts (fetches fail fast)"]
     for b in bad:
         e = events[b["line"] - 1]
@@ -65,7 +65,7 @@ def run(ctx):
             for k in range(2):
                 evs2, _, _ = run_harness(ctx, "pub", "TestVerifRender", {"from": e["i"], "count": count, "systematic": systematic, "only": 1}, timeout=600, allow_fail=True, name="render-repro-%d-%d" % (e["i"], k))
                 again += [x for x in evs2 if x["ev"] == "render"]
-            if len(again) < 2 or not all(x["outcome"] == "timeout" or x["ms"] > 10000 for x in again):
+            if len(again) < 2 or not all(x["outcome"] == "timeout" or x["ms"] > 5000 for x in again):
                 res.extra.setdefault("slow_once_not_reproduced", []).append([e["i"], e["ms"], [x["ms"] for x in again]])
                 continue
         shape = "nesting" if "content=<" in e["desc"] and ("<blockquote><blockquote>" in e["desc"] or "<ul><li><ul>" in e["desc"] or "<h6><h6>" in e["desc"] or "<h1><h1>" in e["desc"]) else "other"
